@@ -2,7 +2,7 @@
 //!
 //! Ground truth comes only from the key-value set S through the reference trie.
 
-use crate::driver::{take_panics, B3, HK, S2};
+use crate::driver::{take_panics, B3, HK, S2, TL};
 use crate::gen::{self, KeyRecipe};
 use crate::hist::{CaseInfo, Violation};
 use crate::reftrie::{Node, RefTrie, Terminal};
@@ -43,6 +43,9 @@ pub struct Mutn {
 pub struct CoreCase {
     pub salt: u64,
     pub sha2: bool,
+    /// use the non-MSB labelling hasher (takes precedence over `sha2`)
+    #[serde(default)]
+    pub tail_label: bool,
     pub keys: Vec<KeyRecipe>,
     /// query keys: index into S (monotone), bit to flip (255 + anything = keep), tail mode
     pub queries: Vec<(u16, u16, u8)>,
@@ -72,6 +75,8 @@ pub fn case_strategy(max_keys: usize, max_muts: usize) -> impl Strategy<Value = 
         .prop_map(|(salt, sha2, keys, queries, ops, muts, root_mode)| CoreCase {
             salt,
             sha2,
+            // one case in 7 runs with the non-MSB labelling hasher
+            tail_label: salt % 7 == 0,
             keys,
             queries,
             ops,
@@ -653,6 +658,30 @@ impl<'a> Judge<'a> {
                 Ok(Err(_)) => {}
                 Err(p) => self.panics.push(p),
             }
+            // the same ops in an order that is not sorted (distinct keys): reject, or return the true root
+            let want = RefTrie::new(H::KIND, &apply_ops(self.kv, &ops)).root();
+            for bad in bad_op_lists(&ops) {
+                let mut keys: Vec<Key> = bad.iter().map(|(k, _)| *k).collect();
+                keys.sort();
+                keys.dedup();
+                if keys.len() != bad.len() {
+                    continue;
+                }
+                let upd = [PathUpdate { inner: v.clone(), ops: bad.clone() }];
+                match cu(|| verify_update::<H::N>(root, &upd)) {
+                    Ok(Ok(r)) if r != want => {
+                        return Err(format!(
+                            "{what}: verify_update accepts an op list that is not sorted ({} ops) and returns {} although the true root of the updated set is {}",
+                            bad.len(),
+                            hx8(&r),
+                            hx8(&want)
+                        ))
+                    }
+                    Ok(Ok(_)) => self.judged += 1,
+                    Ok(Err(_)) => {}
+                    Err(p) => self.panics.push(p),
+                }
+            }
         }
         Ok(())
     }
@@ -708,6 +737,31 @@ impl<'a> Judge<'a> {
                 Ok(Err(_)) => {}
                 Err(p) => self.panics.push(p),
             }
+            // op lists outside the documented domain (not sorted): rejecting them is fine, but an accepted one must
+            // still give the true root of the updated set (the ops are a set of distinct keys, so their order does
+            // not change the set); lists with a repeated key have no well-defined result and are not judged here
+            let want = RefTrie::new(H::KIND, &apply_ops(self.kv, ops)).root();
+            for bad in bad_op_lists(ops) {
+                let mut keys: Vec<Key> = bad.iter().map(|(k, _)| *k).collect();
+                keys.sort();
+                keys.dedup();
+                if keys.len() != bad.len() {
+                    continue;
+                }
+                match cu(|| verify_multi_proof_update::<H::N>(v, bad.clone())) {
+                    Ok(Ok(r)) if r != want => {
+                        return Err(format!(
+                            "{what}: verify_multi_proof_update accepts an op list that is not sorted ({} ops) and returns {} although the true root of the updated set is {}",
+                            bad.len(),
+                            hx8(&r),
+                            hx8(&want)
+                        ))
+                    }
+                    Ok(Ok(_)) => self.judged += 1,
+                    Ok(Err(_)) => {}
+                    Err(p) => self.panics.push(p),
+                }
+            }
         }
         Ok(())
     }
@@ -736,6 +790,31 @@ fn bad_op_lists(ops: &[(Key, Option<[u8; 32]>)]) -> Vec<Vec<(Key, Option<[u8; 32
         let mut sw = ops.to_vec();
         sw.swap(0, 1);
         out.push(sw);
+        // the first op moved to the end / the last one to the front
+        let mut rot = ops.to_vec();
+        rot.rotate_left(1);
+        out.push(rot);
+        let mut rot = ops.to_vec();
+        rot.rotate_right(1);
+        out.push(rot);
+    }
+    // local disorder inside every window of three neighbouring ops (neighbours usually share a terminal):
+    // [a, c, b], [b, a, c], [b, c, a], [c, a, b] - each op stays greater than SOME earlier op, the list is not sorted
+    for i in 0..ops.len().saturating_sub(2) {
+        for perm in [[0usize, 2, 1], [1, 0, 2], [1, 2, 0], [2, 0, 1]] {
+            let mut d = ops.to_vec();
+            let w = [ops[i], ops[i + 1], ops[i + 2]];
+            for (j, p) in perm.iter().enumerate() {
+                d[i + j] = w[*p];
+            }
+            out.push(d);
+        }
+    }
+    // neighbouring swaps at every position
+    for i in 1..ops.len().saturating_sub(1) {
+        let mut d = ops.to_vec();
+        d.swap(i, i + 1);
+        out.push(d);
     }
     out
 }
@@ -941,8 +1020,8 @@ fn recorded_root<H: HK>(mp: &MultiProof) -> Option<Node> {
     }
 }
 
-fn dispatch(case: &CoreCase, f: impl Fn(&CoreCase, bool) -> Result<CaseInfo, Violation>) -> Result<CaseInfo, Violation> {
-    f(case, case.sha2)
+fn dispatch(case: &CoreCase, f: impl Fn(&CoreCase, u8) -> Result<CaseInfo, Violation>) -> Result<CaseInfo, Violation> {
+    f(case, if case.tail_label { 2 } else { case.sha2 as u8 })
 }
 
 fn brief(c: &CoreCase) -> String {
@@ -958,13 +1037,13 @@ fn brief(c: &CoreCase) -> String {
 
 /// Entry points without a `Ctx` (used by the coverage-guided fuzz target in /verif/fuzz).
 pub fn run_c07(case: &CoreCase) -> Result<CaseInfo, Violation> {
-    dispatch(case, |c, sha2| if sha2 { c07_run::<S2>(c) } else { c07_run::<B3>(c) })
+    dispatch(case, |c, h| match h { 2 => c07_run::<TL>(c), 1 => c07_run::<S2>(c), _ => c07_run::<B3>(c) })
 }
 pub fn run_c08(case: &CoreCase) -> Result<CaseInfo, Violation> {
-    dispatch(case, |c, sha2| if sha2 { adversarial::<S2>(c, false) } else { adversarial::<B3>(c, false) })
+    dispatch(case, |c, h| match h { 2 => adversarial::<TL>(c, false), 1 => adversarial::<S2>(c, false), _ => adversarial::<B3>(c, false) })
 }
 pub fn run_c18(case: &CoreCase) -> Result<CaseInfo, Violation> {
-    dispatch(case, |c, sha2| if sha2 { adversarial::<S2>(c, true) } else { adversarial::<B3>(c, true) })
+    dispatch(case, |c, h| match h { 2 => adversarial::<TL>(c, true), 1 => adversarial::<S2>(c, true), _ => adversarial::<B3>(c, true) })
 }
 
 /// Forced shape "block-sized multi-proof": n pairs of keys sharing 248..255 bits, all 2n keys queried, so that the
@@ -984,6 +1063,7 @@ pub fn large_case_strategy() -> impl Strategy<Value = CoreCase> {
             CoreCase {
                 salt,
                 sha2: false,
+                tail_label: false,
                 keys,
                 queries,
                 ops: ops.into_iter().map(|(term, own, suffix, val)| OpSpec { term, own, suffix, val }).collect(),
@@ -1016,7 +1096,7 @@ impl Check for C07 {
         prop_oneof![19999 => case_strategy(40, 0), 1 => large_case_strategy()].boxed()
     }
     fn run(case: &CoreCase, _ctx: &Ctx) -> Result<CaseInfo, Violation> {
-        dispatch(case, |c, sha2| if sha2 { c07_run::<S2>(c) } else { c07_run::<B3>(c) })
+        dispatch(case, |c, h| match h { 2 => c07_run::<TL>(c), 1 => c07_run::<S2>(c), _ => c07_run::<B3>(c) })
     }
     fn brief(case: &CoreCase) -> String {
         brief(case)
@@ -1038,7 +1118,7 @@ impl Check for C08 {
          leaf; multi-proof depth 0/±k/255/256/257/usize::MAX, consistent and inconsistent with the terminal, shallower depth, path swap/duplicate/drop/foreign path, sibling moves across \
          bisections, truncation/extension) verified under the query key, a key sharing the scope, shorter key slices and the leaf's own key, against the true root of S. Oracle from S only: \
          whenever verification returns Ok, confirm_value == Ok(true) implies S[key] has that hash, confirm_nonexistence == Ok(true) implies key not in S, and every verify_update / \
-         verify_multi_proof_update returning Ok(r) has r == reference root of S with the ops applied. Err is always fine; panics are counted, not judged (C18). Non-trivial = case in which a \
+         verify_multi_proof_update returning Ok(r) has r == reference root of S with the ops applied - also for the same ops in orders that are not sorted (reversed, rotated, local permutations, neighbouring swaps), which may be rejected but must not yield another root. Err is always fine; panics are counted, not judged (C18). Non-trivial = case in which a \
          MUTATED object still verified (label mutated_objects_verified); distinct = distinct serialized case".into()
     }
     fn assumptions() -> Vec<String> {
@@ -1058,7 +1138,7 @@ impl Check for C08 {
             .boxed()
     }
     fn run(case: &CoreCase, _ctx: &Ctx) -> Result<CaseInfo, Violation> {
-        dispatch(case, |c, sha2| if sha2 { adversarial::<S2>(c, false) } else { adversarial::<B3>(c, false) })
+        dispatch(case, |c, h| match h { 2 => adversarial::<TL>(c, false), 1 => adversarial::<S2>(c, false), _ => adversarial::<B3>(c, false) })
     }
     fn brief(case: &CoreCase) -> String {
         brief(case)
@@ -1088,7 +1168,7 @@ impl Check for C18 {
         case_strategy(30, 6).boxed()
     }
     fn run(case: &CoreCase, _ctx: &Ctx) -> Result<CaseInfo, Violation> {
-        dispatch(case, |c, sha2| if sha2 { adversarial::<S2>(c, true) } else { adversarial::<B3>(c, true) })
+        dispatch(case, |c, h| match h { 2 => adversarial::<TL>(c, true), 1 => adversarial::<S2>(c, true), _ => adversarial::<B3>(c, true) })
     }
     fn brief(case: &CoreCase) -> String {
         brief(case)
